@@ -101,7 +101,8 @@ def wide_one(m, seeds, nvals):
                 res.append((l.split()[1], l.split()[3], "-", "der", "BOUNDARY-VALUE-REJECTED:" + o.replace(" ", "_"), "", l))
     else:
         lines = ["wfill %s %d %d" % (tn, seeds.below(100000), seeds.choice([8, 32, 64, 200])) for tn, _ in m["defs"] for _ in range(nvals)]
-        outs, ev = widefind.run_robust(m["exe"], lines, line_timeout=6)
+        # after one hang of asn_random_fill on a type the remaining draws for that type are skipped
+        outs, ev = widefind.run_robust(m["exe"], lines, line_timeout=5, hang_key=lambda l: l.split()[1])
     # a driver death or hang inside asn_random_fill (assertion `range < intmax_max' on INTEGER (0..9223372036854775807); unbounded
     # self-recursion on recursive types) is a defect of the value SOURCE, not of a codec: the value is unusable
     cnt("wide_fill_crash", len([e for e in ev if e[1] != "EXIT"]))
